@@ -289,6 +289,9 @@ class walk_tree(object):
             if seg_node.pos != cur_pos:
                 errh.add_seg(seg_node, seg_data, seg_count, cur_line, ls_id)
                 errh.seg_error(err_cde, err_str, None)
+                if err_str.startswith('Mandatory loop'):
+                    # say it once per instance of the enclosing loop, however often the position is passed again
+                    self.counter.note_missing(seg_node.parent.x12path)
         self.mandatory_segs_missing = [x for x in self.mandatory_segs_missing if x[0].pos == cur_pos]
 
     def _is_loop_match(self, loop_node, seg_data, errh, seg_count, cur_line, ls_id):
@@ -326,7 +329,8 @@ class walk_tree(object):
                     return True
         elif is_first_seg_match2(first_child_node, seg_data):
             return True
-        elif loop_node.usage == 'R' and self.counter.get_count(loop_node.x12path) < 1:
+        elif loop_node.usage == 'R' and self.counter.get_count(loop_node.x12path) < 1 \
+                and not self.counter.is_noted_missing(loop_node.x12path):
             fake_seg = pyx12.segment.Segment('%s' % (first_child_node.id), '~', '*', ':')
             err_str = 'Mandatory loop "%s" (%s) missing' % \
                 (loop_node.name, loop_node.id)
